@@ -83,6 +83,10 @@ def decorate(rng, prog):
                 for m in g:
                     if rng.random() < 0.06:
                         m["attrs"] = list(m["attrs"]) + [("deprecated", rng.choice([[], [""], [""], ["why"], ["ü \"q\""], [" "]]))]
+                    # the built-in allow attribute: every lint it names, as written and as often as written
+                    if rng.random() < 0.06:
+                        m["attrs"] = list(m["attrs"]) + [("allow", rng.choice([["BrokenDocLink", "Deprecated", "BrokenDocLink"], ["All"], ["Deprecated", "Deprecated"],
+                                                                               ["IncorrectDocComment", "All", "MalformedDocComment", "All"], ["MalformedDocComment"], ["All", "All", "All"]]))]
             for g in groups:
                 # operation names must stay distinct across the whole program (an inherited operation may not be redeclared)
                 used = op_names if (d["kind"] == "interface" and g is d["ops"]) else {m["name"] for m in g}
